@@ -46,11 +46,19 @@ def parseOp (j : Json) : Except String Op := do
   | "write" => pure (.write a)
   | _ => throw s!"bad op {k}"
 
-def obsJ (hdr : Bytes) : Obs → Json
+def hexVal (c : Char) : Nat :=
+  if '0' ≤ c ∧ c ≤ '9' then c.toNat - 48 else if 'a' ≤ c ∧ c ≤ 'f' then c.toNat - 87 else 0
+def ofHex : List Char → Bytes
+  | a :: b :: r => (16 * hexVal a + hexVal b) :: ofHex r
+  | _ => []
+def hexDigit (n : Nat) : Char := if n < 10 then Char.ofNat (48 + n) else Char.ofNat (87 + n)
+def toHex (b : Bytes) : String := String.ofList (b.flatMap (fun x => [hexDigit (x / 16), hexDigit (x % 16)]))
+
+def obsJ (hex : Bool) (hdr : Bytes) : Obs → Json
   | .num n => Json.mkObj [("num", nat n)]
   | .col c => Json.mkObj [("col", Json.arr (c.map bstr).toArray)]
   | .rows r => Json.mkObj [("rows", Json.arr (r.map (fun x => Json.arr (x.map bstr).toArray)).toArray)]
-  | .bytes b => Json.mkObj [("bytes", bstr (hdr ++ b))]
+  | .bytes b => Json.mkObj [("bytes", if hex then Json.str (toHex (hdr ++ b)) else bstr (hdr ++ b))]
   | .unit => Json.str "unit"
   | .err => Json.str "err"
 
@@ -73,23 +81,26 @@ def handle (op : String) (j : Json) : Except String Json := do
   match op with
   | "run" =>
     let nF ← getNat j "nF"
-    let hdr := toBytes (← getStr j "hdr")
+    let fmt ← getStr j "fmt"
+    let hex := fmt == "bam"
+    let rawBytes := fun (t : String) => if hex then ofHex t.toList else toBytes t
+    let hdr := rawBytes (← getStr j "hdr")
     let tabs ← (← getArr j "tables").mapM (fun t => do
       (← t.getArr?).toList.mapM (fun r => do
         let raw ← getStr r "raw"
         let cells ← (← getArr r "cells").mapM (fun c => do
           let a ← c.getArr?
           pure (Cell.mk (toBytes (← a[0]!.getStr?)) (toBytes (← a[1]!.getStr?))))
-        pure (FRow.mk (toBytes raw) cells)))
+        pure (FRow.mk (rawBytes raw) cells)))
     let ops ← (← getArr j "ops").mapM parseOp
-    let fmt ← getStr j "fmt"
     let k : Cfg := { nF := nF, join := (if fmt == "fastq" then joinFastq else if fmt == "fasta2" then joinFasta else joinTab),
-                     fixedConcat := concatFixed, bufferConcat := !(fmt == "fastq" || fmt == "fasta2"), fixedSetattr := setattrFixed }
+                     fixedConcat := concatFixed, bufferConcat := !(fmt == "fastq" || fmt == "fasta2" || fmt == "bam"), fixedSetattr := setattrFixed,
+                     modWrite := !(fmt == "bam"), eagerWrite := !(fmt == "bam") }
     let drop ← getNat j "drop"
     let lz := (runLazy k ops (tabs.map Lazy.ofFile)).drop drop
     let eg := (runEager k ops (tabs.map (Eager.ofFile nF))).drop drop
-    let m := Json.mkObj [("lazy", Json.arr (lz.map (obsJ hdr)).toArray), ("eager", Json.arr (eg.map (obsJ hdr)).toArray)]
-    pure (reply m (some (Json.mkObj [("spec", Json.arr (eg.map (obsJ hdr)).toArray)])))
+    let m := Json.mkObj [("lazy", Json.arr (lz.map (obsJ hex hdr)).toArray), ("eager", Json.arr (eg.map (obsJ hex hdr)).toArray)]
+    pure (reply m (some (Json.mkObj [("spec", Json.arr (eg.map (obsJ hex hdr)).toArray)])))
   | _ => throw s!"C05: unknown op {op}"
 
 end Drv.C05
